@@ -132,7 +132,19 @@ def t_for(E, step_given):
         E.assume(d != 0)
     else:
         step, d = None, 1
-    r = E.call(it.for_, iter([b'I%', start, stop, step]))
+    # the statement parser hands the limit and the step over lazily: they are expressions of the program and
+    # may mention the loop variable, so they have to be evaluated before the counter is overwritten
+    seen = []
+    def lazy():
+        yield b'I%'
+        yield start
+        seen.append(('limit', b'I%' in it._scalars.vars))
+        yield stop
+        seen.append(('step', b'I%' in it._scalars.vars))
+        yield step
+    r = E.call(it.for_, lazy())
+    E.prove(seen == [('limit', False), ('step', False)] or r.raised,
+            'the limit and the step are evaluated before the loop variable is assigned (FOR I=1 TO I+5 uses the old I)')
     past = If(d >= 0, a > b, b > a)
     nxt = a + d
     if r.raised:
@@ -160,7 +172,100 @@ def t_for(E, step_given):
         E.prove(('seek', 80) not in it._program_code.log, 'the body is entered')
 
 
+# ---------------------------------------------------------------------------
+# block matching (FOR..NEXT, WHILE..WEND) over real tokenised lines
+
+_STMTS = ['X=1', 'FOR J=1 TO 2', 'NEXT', 'WHILE A', 'WEND', 'IF A THEN X=2', 'IF A THEN FOR K=1 TO 2', 'IF A THEN NEXT',
+          'IF A THEN X=3 ELSE FOR K=1 TO 2', 'IF A THEN X=3 ELSE NEXT', 'IF A THEN X=3 ELSE WHILE B', 'IF A THEN X=3 ELSE WEND',
+          'REM NEXT', 'PRINT "NEXT:WEND"']
+
+
+def _events(stmt):
+    """Block tokens a statement contributes, in order (the reference reading of the line)."""
+    if stmt.startswith('REM') or stmt.startswith('PRINT'):
+        return []
+    out = []
+    for part in stmt.replace(' THEN ', '|').replace(' ELSE ', '|').split('|'):
+        w = part.split()[0]
+        if w in ('FOR', 'NEXT', 'WHILE', 'WEND'):
+            out.append(w)
+    return out
+
+
+def t_skip_block(E, kind, chunk, nchunks):
+    """TokenisedStream.skip_block on every program of up to three statements (one per line or colon-joined)
+    drawn from a fixed list that puts FOR / NEXT / WHILE / WEND after a colon, after THEN and after ELSE, inside
+    REM and inside a string: the scan from just after an opening FOR / WHILE stops at the matching closing token
+    (nested blocks skipped), or runs to the end when there is none."""
+    import itertools
+    from pcbasic.basic.converter import tokeniser as tokeniser_mod
+    from pcbasic.basic.base import codestream
+    vals = values_env()
+    tok = tokeniser_mod.Tokeniser(vals, tk.TokenKeywordDict('advanced'))
+    opener, closer = ('FOR', 'NEXT') if kind == 'for' else ('WHILE', 'WEND')
+    otok, ctok = (tk.FOR, tk.NEXT) if kind == 'for' else (tk.WHILE, tk.WEND)
+    progs = [p for n in (1, 2, 3) for p in itertools.product(_STMTS, repeat=n)]
+    progs = [p for i, p in enumerate(progs) if i % nchunks == chunk]
+    checked = 0
+    bad = []
+    for joiner in (':', None):
+        for body in progs:
+            first = 'FOR I=1 TO 3' if kind == 'for' else 'WHILE Z'
+            if joiner == ':':
+                text = ['10 ' + ':'.join((first,) + body)]
+            else:
+                text = ['%d %s' % (10 * (k + 1), st) for k, st in enumerate((first,) + body)]
+            code = b''
+            for ln in text:
+                code += tok.tokenise_line(ln.encode('ascii')).getvalue()
+            code += b'\0\0\0'
+            ins = codestream.TokenisedStream()
+            ins.write(code)
+            # position just after the opening statement's keyword
+            start = code.index(otok) + 1
+            ins.seek(start)
+            # reference: match by counting block tokens
+            live = list(body)
+            if joiner == ':':
+                # REM comments out the rest of the line, colons included
+                for k, st in enumerate(live):
+                    if st.startswith('REM'):
+                        live = live[:k]
+                        break
+            evs = [e for st in live for e in _events(st)]
+            depth, want = 0, None
+            for k, e in enumerate(evs):
+                if e == opener:
+                    depth += 1
+                elif e == closer:
+                    if depth == 0:
+                        want = k
+                        break
+                    depth -= 1
+            r = E.call(ins.skip_block, otok, ctok)
+            if r.raised:
+                bad.append(('raised', text))
+                continue
+            nxt = E.call(ins.skip_blank).value
+            if want is None:
+                if nxt == ctok:
+                    bad.append(('stops although nothing matches', text))
+            else:
+                # the closing token found must be the (want+1)-th block token of its kind sequence: count closers before it
+                pos = ins.tell()
+                ncl = sum(1 for e in evs[:want + 1] if e == closer)
+                seen_cl = code[start:pos + 1].count(ctok)
+                if not (nxt == ctok and seen_cl >= ncl):
+                    bad.append(('does not stop at the matching token', text))
+            checked += 1
+    E.prove(checked > 0, 'programs were checked')
+    E.prove(bad == [], 'the scan from an opening %s stops at the matching %s, or at the end when there is none, in every program of the list%s'
+            % (opener, closer, '' if not bad else ' - first failures: %r' % (bad[:3],)))
+
+
 TASKS = [
+    Task('TokenisedStream.skip_block (FOR..NEXT / WHILE..WEND matching)', t_skip_block,
+         cases=[{'kind': k, 'chunk': c, 'nchunks': 12} for k in ('for', 'while') for c in range(12)]),
     Task('GOSUB/RETURN', t_gosub_return, cases=[{'depth': d, 'run_mode': m} for d in (0, 1, 2, 3) for m in (True, False)]),
     Task('ON x GOTO/GOSUB', t_on_jump, covers=('jump', 'fall through'),
          cases=[{'kind': k, 'ntargets': n} for k in ('goto', 'gosub') for n in (1, 2, 3)]),
@@ -173,5 +278,5 @@ ASSUMPTIONS = [
     '_find_next / _check_while_condition (token scanning and expression evaluation) are stand-ins',
     'GOSUB stack depth 0..3 with symbolic return positions; programs are a fixed line table',
 ]
-NOT_COVERED = ['_find_next/_find_wend token scanning, multi-statement lines, IF/THEN/ELSE branch parsing (coroutine with the statement parser)',
+NOT_COVERED = ['_find_next/_find_wend beyond the block scan (variable-name matching of NEXT, NEXT I,J lists), multi-statement lines, IF/THEN/ELSE branch parsing (coroutine with the statement parser)',
                'the claim about visit order of whole programs']
